@@ -47,6 +47,14 @@ theorem id_generation_serialised :
     Skel.count (.send "pending.respChan") skel_server_handleAgentPostResponse = 1 ∧
     Skel.count (.recv "pending.respChan") skel_server_ServeHTTP = 1 := by decide
 
+/-- T1: request IDs are derived from a draw on a generator that is seeded from the clock when the proxy process
+    starts, so two proxy instances do not hand out the same ID sequence.  (The agent and the requests it has at the
+    backend outlive a proxy process; the isolation theorems above are per instance and assume unique IDs, which a
+    per-instance counter would satisfy while making the upload for an old request hit a new client's ID.
+    The `restart` suite replays exactly that history against the real binaries.) -/
+theorem request_ids_drawn_from_per_process_seed :
+    server_requestIDDraw = "p.randGenerator.Int63()" ∧ server_requestIDSeed = "time.Now().UnixNano()" := by decide
+
 -- non-vacuity: a correct run with two clients answered out of order
 example : (run .atomic init [.arrive 5, .arrive 6, .fetch 1 1, .fetch 2 0, .upload 1, .deliver 1, .upload 2, .deliver 0]).map (·.delivered) =
     some [(5, 5), (6, 6)] := by decide
